@@ -290,6 +290,10 @@ def run_obligations(ck, pid, n, excl, with_orders=True, with_relabel=True, sep_n
         _EXTRA.update(kw)
         try:
             _run_obligations(ck, pid, n, excl, with_orders, with_relabel, sep_na, timeout, lab)
+        except R.Unsupported as e:
+            # the real function uses a construct the encoder does not model: no verdict (CrossHair still runs)
+            ck.not_encoded[f"fg_id_numpy N={n}"] = str(e)[:160]
+            ck.inconclusive.append(f"fg_id_numpy N={n}: not encodable ({str(e)[:100]})")
         finally:
             _EXTRA.clear()
 
